@@ -151,6 +151,12 @@ where
     async fn handle_frame(&mut self, io: &mut PhysLayer, frame: Frame) -> Result<(), RequestError> {
         let mut cursor = ReadCursor::new(frame.payload());
 
+        // frames for a unit id that this server doesn't own are never answered with an exception
+        let addressed = match frame.header.destination {
+            FrameDestination::UnitId(unit_id) => self.handlers.get(unit_id).is_some(),
+            FrameDestination::Broadcast => true,
+        };
+
         let function = match cursor.read_u8() {
             Err(_) => {
                 tracing::warn!("received an empty frame");
@@ -160,6 +166,9 @@ where
                 Some(x) => x,
                 None => {
                     tracing::warn!("received unknown function code: {}", value);
+                    if !addressed {
+                        return Ok(());
+                    }
                     return self
                         .reply_with_error_generic(
                             io,
@@ -176,6 +185,9 @@ where
             Ok(x) => x,
             Err(err) => {
                 tracing::warn!("error parsing {:?} request: {}", function, err);
+                if !addressed {
+                    return Ok(());
+                }
                 return self
                     .reply_with_error(io, frame.header, function, ExceptionCode::IllegalDataValue)
                     .await;
